@@ -308,47 +308,132 @@ func runC12(c *core.Ctx) {
 
 func checkAutomaton(c *core.Ctx, asmName, keyName, valName, stateName string, contract map[string]map[string]string) {
 	p := c.P
-	stateT := p.NamedType("node/basicnode", stateName)
 	asmT := p.NamedType("node/basicnode", asmName)
-	if stateT == nil || asmT == nil {
-		c.Undecided("node/basicnode."+asmName, "-", "assembler or state type not found")
+	if asmT == nil {
+		c.Undecided("node/basicnode."+asmName, "-", "assembler type not found")
 		return
 	}
-	constName := map[string]string{}
-	var states []string
-	for n, v := range enumConsts(stateT) {
-		short := n[strings.LastIndex(n, "_")+1:]
-		constName[v.ExactString()] = short
-		states = append(states, short)
+	// the protocol state: the assembler's field of an integer enum type (whatever the field, the type and its constants are called)
+	var stateT *types.Named
+	if st, ok := asmT.Underlying().(*types.Struct); ok {
+		for i := 0; i < st.NumFields(); i++ {
+			if isEnumType(st.Field(i).Type()) {
+				stateT, _ = types.Unalias(st.Field(i).Type()).(*types.Named)
+			}
+		}
 	}
-	sort.Strings(states)
+	if stateT == nil {
+		c.Undecided("node/basicnode."+asmName+"#state", "-", "the assembler has no field of an integer enum type holding its protocol state")
+		return
+	}
+	constName := map[string]string{} // exact constant -> the constant's own name (only used to tell states apart)
+	zero := ""
+	for n, v := range enumConsts(stateT) {
+		constName[v.ExactString()] = n
+		if v.ExactString() == "0" {
+			zero = n
+		}
+	}
 	isStateAddr := func(v ssa.Value) bool {
 		fa, ok := v.(*ssa.FieldAddr)
 		return ok && isStateField(fa) && strings.HasPrefix(core.FieldName(fa), asmName+".")
 	}
-	run := func(role, typeName, method string) {
+	method := func(typeName, m string) *ssa.Function {
 		t := p.NamedType("node/basicnode", typeName)
 		if t == nil {
-			c.Undecided("node/basicnode."+typeName+"."+method, "-", "type not found")
-			return
+			return nil
 		}
-		fn := p.Method(types.NewPointer(t), method)
+		fn := p.Method(types.NewPointer(t), m)
 		if fn == nil || len(fn.Blocks) == 0 {
-			c.Undecided("node/basicnode."+typeName+"."+method, "-", "method not found")
+			return nil
+		}
+		return fn
+	}
+	extract := func(fn *ssa.Function, start string) map[tsOutcome]bool {
+		x := &tsExtractor{fn: fn, isStateAddr: isStateAddr, constName: constName, errIdx: core.ErrResultIndex(fn)}
+		return x.run(start)
+	}
+	// The contract speaks of roles (initial, midKey, expectValue, midValue, finished). Which constant plays which role
+	// is read off the code: initial is the zero value (a fresh assembler), the others are where the protocol's success
+	// steps lead. The roles must come out pairwise distinct, and then EVERY (method, state) pair is compared with the
+	// contract - so a step that leads to the wrong state shows up as a clash of roles or as a wrong transition elsewhere.
+	okEnd := func(fn *ssa.Function, start string) string {
+		if fn == nil || start == "" {
+			return ""
+		}
+		end := ""
+		for o := range extract(fn, start) {
+			if o.Kind == "ok" || o.Kind == "maybe" {
+				if end != "" && end != o.End {
+					return ""
+				}
+				end = o.End
+			}
+		}
+		return end
+	}
+	role := map[string]string{"initial": zero} // role -> constant name
+	if keyName != "" {
+		role["midKey"] = okEnd(method(asmName, "AssembleKey"), role["initial"])
+		role["expectValue"] = okEnd(method(keyName, "AssignString"), role["midKey"])
+		role["midValue"] = okEnd(method(asmName, "AssembleValue"), role["expectValue"])
+	} else {
+		role["midValue"] = okEnd(method(asmName, "AssembleValue"), role["initial"])
+	}
+	role["finished"] = okEnd(method(asmName, "Finish"), role["initial"])
+	roleOf := map[string]string{}
+	var roles []string
+	clash := ""
+	for r, cn := range role {
+		if cn == "" || cn == "?" {
+			clash = "the state reached by the protocol's success step into '" + r + "' could not be determined"
+			continue
+		}
+		if other, dup := roleOf[cn]; dup {
+			clash = fmt.Sprintf("the roles %s and %s are played by one and the same state %s", other, r, cn)
+		}
+		roleOf[cn] = r
+		roles = append(roles, r)
+	}
+	sort.Strings(roles)
+	if !c.Check(clash == "", "node/basicnode."+asmName+"#states", "-", fmt.Sprintf("protocol states identified: %v", role), "the assembler's protocol states do not map onto the contract: "+clash) {
+		return
+	}
+	// states of the enum that play no role (none today) are still run: calling anything in them must be misuse
+	for _, cn := range constName {
+		if _, ok := roleOf[cn]; !ok {
+			roleOf[cn] = cn
+			roles = append(roles, cn)
+			role[cn] = cn
+		}
+	}
+	render := func(m map[tsOutcome]bool) string {
+		mm := map[tsOutcome]bool{}
+		for o := range m {
+			if r, ok := roleOf[o.End]; ok {
+				o.End = r
+			}
+			mm[o] = true
+		}
+		return outcomesString(mm)
+	}
+	run := func(who, typeName, m string) {
+		fn := method(typeName, m)
+		if fn == nil {
+			c.Undecided("node/basicnode."+typeName+"."+m, "-", "method not found")
 			return
 		}
-		x := &tsExtractor{fn: fn, isStateAddr: isStateAddr, constName: constName, errIdx: core.ErrResultIndex(fn)}
-		want := contract[role+"."+method]
-		for _, s := range states {
-			exp, ok := want[s]
+		want := contract[who+"."+m]
+		for _, r := range roles {
+			exp, ok := want[r]
 			if !ok {
 				exp, ok = want["*"]
 				if !ok {
 					continue // the contract says nothing about calling it in this state
 				}
 			}
-			got := outcomesString(x.run(s))
-			c.Check(got == exp, fmt.Sprintf("node/basicnode.%s.%s[%s]", typeName, method, s), p.Pos(fn.Pos()), "matches the contract: "+exp, fmt.Sprintf("in state %s the method does {%s} but the assembler contract prescribes {%s}", s, got, exp))
+			got := render(extract(fn, role[r]))
+			c.Check(got == exp, fmt.Sprintf("node/basicnode.%s.%s[%s]", typeName, m, r), p.Pos(fn.Pos()), "matches the contract: "+exp, fmt.Sprintf("in state %s the method does {%s} but the assembler contract prescribes {%s}", r, got, exp))
 		}
 	}
 	for _, m := range []string{"AssembleKey", "AssembleEntry", "AssembleValue", "Finish"} {
